@@ -5,12 +5,12 @@ SPEC = {
     "groups": ["delta"],
     "files": ["src/payload/delta.rs"],
     "harnesses": {
-        "quick": ["c11_construct_0_1", "c11_construct_1_0", "c11_construct_1_1", "c11_construct_2_1", "c11_construct_1_2"],
-        "thorough": ["c11_construct_2_2", "c11_construct_3_2", "c11_construct_2_3", "c11_construct_3_3"],
+        "quick": ["c11_counts_0_1", "c11_counts_1_0", "c11_counts_1_1", "c11_counts_2_1", "c11_counts_1_2", "c11_counts_2_2", "c11_items_1_1"],
+        "thorough": ["c11_items_0_1", "c11_items_1_0", "c11_items_2_1", "c11_items_1_2", "c11_items_2_2", "c11_counts_3_2", "c11_counts_2_3", "c11_counts_3_3"],
     },
     "harness_file": {"*": ("delta.rs", "src/payload/delta.rs")},
     "timeout": {"quick": 900, "thorough": 7200},
-    "jobs": {"quick": 5, "thorough": 4},
+    "jobs": {"quick": 7, "thorough": 6},
 }
 
 
